@@ -365,26 +365,58 @@ def Tget_range_restriction_tag(T):
         def _get_additional_restrictions(prot, restriction, cls):
             pass
 
+    def _get_range_facets(cls):
+        """Returns the (tag, value) pairs of the range facets that are to be
+        written for ``cls``. Xml Schema rejects a schema whose restriction has a
+        facet value outside the value space of the base type, or both the
+        inclusive and the exclusive form of the same bound, so:
+
+        - a bound outside the hardware limits of a bounded base type (e.g.
+          ``UnsignedInteger8(gt=-1)``, which the model only warns about) is
+          redundant and is left out,
+        - when both ``gt`` and ``ge`` (or ``lt`` and ``le``) are set, only the
+          tighter one is written.
+        """
+
+        min_bound = getattr(cls.Attributes, 'min_bound', None)
+        max_bound = getattr(cls.Attributes, 'max_bound', None)
+
+        def _get(name):
+            value = getattr(cls.Attributes, name)
+            if value == getattr(T.Attributes, name):
+                return None
+            if min_bound is not None and value < min_bound:
+                return None
+            if max_bound is not None and value > max_bound:
+                return None
+            return value
+
+        gt, ge, lt, le = _get('gt'), _get('ge'), _get('lt'), _get('le')
+
+        if gt is not None and ge is not None:
+            if gt >= ge:
+                ge = None
+            else:
+                gt = None
+
+        if lt is not None and le is not None:
+            if lt <= le:
+                le = None
+            else:
+                lt = None
+
+        return [(k, v) for k, v in (('minExclusive', gt), ('minInclusive', ge),
+                          ('maxExclusive', lt), ('maxInclusive', le))
+                                                               if v is not None]
+
     def _get_range_restriction_tag(document, cls):
         restriction = simple_get_restriction_tag(document, cls)
         if restriction is None:
             return
 
-        if cls.Attributes.gt != T.Attributes.gt:
-            elt = etree.SubElement(restriction, XSD('minExclusive'))
-            elt.set('value', prot.to_unicode(cls, cls.Attributes.gt))
-
-        if cls.Attributes.ge != T.Attributes.ge:
-            elt = etree.SubElement(restriction, XSD('minInclusive'))
-            elt.set('value', prot.to_unicode(cls, cls.Attributes.ge))
-
-        if cls.Attributes.lt != T.Attributes.lt:
-            elt = etree.SubElement(restriction, XSD('maxExclusive'))
-            elt.set('value', prot.to_unicode(cls, cls.Attributes.lt))
-
-        if cls.Attributes.le != T.Attributes.le:
-            elt = etree.SubElement(restriction, XSD('maxInclusive'))
-            elt.set('value', prot.to_unicode(cls, cls.Attributes.le))
+        for tag, value in _get_range_facets(cls):
+            elt = etree.SubElement(restriction, XSD(tag))
+            elt.set('value', prot.to_unicode(cls, value))
 
         if cls.Attributes.pattern != T.Attributes.pattern:
             elt = etree.SubElement(restriction, XSD('pattern'))
